@@ -186,6 +186,13 @@ func genC02Elem(t *rapid.T, header string, nested *bool) c02Elem {
 	case "a":
 		e.H = rapid.IntRange(0, 100000).Draw(t, "h")
 	}
+	switch e.Kind {
+	case "enabled", "resumed", "resume", "a", "r", "success", "failure":
+		// elements that are normally empty may carry anything as well ("whatever the element contains")
+		if rapid.IntRange(0, 2).Draw(t, "oddKids") == 0 {
+			e.Kids = genC02Kids(t, e.Kind, 1, nested)
+		}
+	}
 	return e
 }
 
